@@ -364,6 +364,19 @@ func c18RoundTrip(c *engine.Case, pkg *appPkg, uplink bool, cid byte, v appPaylo
 		c.Fail(class+"/round-trip-differs", fmt.Sprintf("%s encodes to %x which decodes to %s", want, enc, got), nil)
 		return
 	}
+	// a payload value that was used before (it last decoded the bit-wise complement of these
+	// bytes) decodes to the same command as a fresh one
+	if used, ok := pkg.payload(uplink, cid); ok {
+		inv := make([]byte, len(enc))
+		for i := range enc {
+			inv[i] = ^enc[i]
+		}
+		used.UnmarshalBinary(inv)
+		if err := used.UnmarshalBinary(enc); err != nil || deepPrint(used) != deepPrint(v) {
+			c.Fail(class+"/decode-into-used-value-differs", fmt.Sprintf("%x decoded into a value that had decoded %x before gives %s (err %v), expected %s", enc, inv, deepPrint(used), err, deepPrint(v)), nil)
+			return
+		}
+	}
 	// the same value with every byte-slice field held as a window into a larger buffer
 	// (spare capacity, other bytes behind it): nothing about the encoding may change
 	if respliceBytes(reflect.ValueOf(fresh)) {
